@@ -26,12 +26,17 @@ fn strategy() -> BoxedStrategy<Case> {
                 3 => prop::sample::select(vec![9usize, 10, 11]).prop_map(move |k| k.min(n)),
                 1 => Just(n),
             ];
-            let peer = prop_oneof![
+            let peer = if np >= 255 {
+                // with hundreds of peers availability differences live above 255 only if almost everybody has almost everything
+                prop_oneof![3 => vec(prop::bool::weighted(0.95), n..=n), 1 => Just(vec![true; n])].boxed()
+            } else {
+                prop_oneof![
                 4 => vec(any::<bool>(), n..=n),
                 1 => vec(prop::bool::weighted(0.15), n..=n),
                 1 => Just(vec![true; n]),
                 1 => Just(vec![false; n]),
-            ];
+            ].boxed()
+            };
             (
                 target_missing,
                 vec(prop_oneof![3 => Just(0u8), 1 => 1u8..=3], n..=n),
